@@ -401,6 +401,10 @@ func (m *e2Machine) Enabled() []pt.Action {
 				// the same client uses its key a second time (pending or subscribed): with the same type it gets the handle it
 				// already has, with another type it is refused through the error handler
 				as = append(as, pt.Action{Op: "reopen", R: c.idx, T: k, K: "soc", V: "same"}, pt.Action{Op: "reopen", R: c.idx, T: k, K: "create", V: "other"})
+				// the same refusal when the application gave no error handler, no handlers at all, or uses the generic entry point
+				as = append(as, pt.Action{Op: "reopen", R: c.idx, T: k, K: "create", V: "other-no-error-handler"},
+					pt.Action{Op: "reopen", R: c.idx, T: k, K: "create", V: "other-no-handlers"},
+					pt.Action{Op: "reopen", R: c.idx, T: k, K: "create", V: "other-generic"})
 			}
 			if lc := localCalls(w, 0, m.p.Alpha); strings.Contains(m.p.Alpha, "txfail") && len(lc) > 0 && m.ntxfail < 1 {
 				// a transaction that gives up after its first call (rolled back: nothing of it may remain, also not in the numbering)
@@ -655,6 +659,53 @@ func (m *e2Machine) Apply(a pt.Action) (v *pt.Violation) {
 		m.nreopen++
 		d := c.dts[a.T]
 		typ := c.typ
+		if strings.HasPrefix(a.V, "other-") {
+			// refused without a handler to tell: the call returns nothing, does not panic, and nothing changes
+			other := map[string]string{"counter": "map", "map": "list", "list": "doc", "doc": "counter"}[c.typ]
+			before := m.sys.DB.Dump()
+			var got interface{}
+			var perr interface{}
+			func() {
+				defer func() { perr = recover() }()
+				var h *orda.Handlers
+				if a.V == "other-no-error-handler" {
+					h = orda.NewHandlers(func(dt orda.Datatype, o, n model.StateOfDatatype) {}, nil, nil)
+				}
+				switch {
+				case a.V == "other-generic":
+					if dt := c.h.C.CreateDatatype(a.T, typeOf(other), c.h.Handlers(a.T)); dt != nil {
+						got = dt
+					}
+				case other == "map":
+					if dt := c.h.C.CreateMap(a.T, h); dt != nil {
+						got = dt
+					}
+				case other == "list":
+					if dt := c.h.C.CreateList(a.T, h); dt != nil {
+						got = dt
+					}
+				case other == "doc":
+					if dt := c.h.C.CreateDocument(a.T, h); dt != nil {
+						got = dt
+					}
+				default:
+					if dt := c.h.C.CreateCounter(a.T, h); dt != nil {
+						got = dt
+					}
+				}
+			}()
+			m.last = fmt.Sprintf("reopen %s nil=%v panic=%v", a.V, got == nil, perr != nil)
+			if perr != nil {
+				return viol("C13:own-key-reused-with-another-type-panics:"+a.V, "%s: the client holds %s as %s; opening it as %s panicked: %v", a, a.T, c.typ, other, perr)
+			}
+			if got != nil {
+				return viol("C13:own-key-reused-with-another-type-not-refused:"+a.V, "%s: the client holds %s as %s, opening it as %s returned a datatype", a, a.T, c.typ, other)
+			}
+			if after := m.sys.DB.Dump(); after != before {
+				return viol("C13:refused-entry-changed-store:"+a.V, "%s changed stored data", a)
+			}
+			return nil
+		}
 		if a.V == "other" {
 			typ = map[string]string{"counter": "map", "map": "list", "list": "doc", "doc": "counter"}[c.typ]
 		}
